@@ -209,6 +209,9 @@ def cases(tier, seed, prop):
             c_ = {'snippets': dict(sn_), 'options': {'output.format': False}}
             if tx is not None: c_['text'] = tx
             out.append({'s0': ab, 'c': c_, 'expect_bare': exp, 'g': 'alias-with-text'})
+        # text that begins with an inline-level tag written in capitals: still content, character for character
+        for ab, exp in [('x{<B>b</B> t}', '<x><B>b</B> t</x>'), ('div>x{<SPAN k=v>t</SPAN>}', '<div>\n\t<x><SPAN k=v>t</SPAN></x>\n</div>'), ('div>x{<b>b</b> t}', '<div>\n\t<x><b>b</b> t</x>\n</div>'), ('p>x{<Em>e</Em>}+y', '<p>\n\t<x><Em>e</Em></x>\n\t<y></y>\n</p>')]:
+            out.append({'s0': ab, 'c': {}, 'expect_bare': exp, 'g': 'inline-tag-text'})
         # multi-line texts whose lines begin with blanks: laid out one line per text line, every blank kept
         for w in ('  a\nb', ' \tq\n r', 'a\n  b', '   x y\n\n  z'):
             exp = '<x>\n' + ''.join('\t' + l + '\n' for l in w.split('\n')) + '</x>'
